@@ -8,7 +8,7 @@ Lemma shutdown_raises_signal :
   forallb st_shutdown_cancels stages = true /\
   forall s, In s stages ->
     st_calls_before_cancel s = [] \/
-    (st_name s = "kafka transporter" /\ st_calls_before_cancel s = ["time.Sleep"; "t.kafkaProducer.Close"]).
+    (st_name s = "kafka transporter" /\ st_calls_before_cancel s = ["time.Sleep"; "field.Close"]).
 Proof.
   split; [vm_compute; reflexivity|].
   intros s Hin. unfold stages in Hin. simpl in Hin.
